@@ -15,7 +15,11 @@ META = {
             "* (a_i - a_(i-1)), steps taken in order along the geometric grid a0..a1, beta_j from the literature table; the QED "
             "singlet/valence eko_iterate likewise with sum_ij gamma[i,j] a_s^i a_em^j / sum beta^(i+1,j) a_s^(i+1) a_em^j at the "
             "supplied half-step couplings (beta^(2,1) mixed term included), and the QED non-singlet `exact` is proved to be the "
-            "ordered product of the fixed-alpha_em kernels (C07) over the supplied coupling steps and a geometric mu^2 grid.",
+            "ordered product of the fixed-alpha_em kernels (C07) over the supplied coupling steps and a geometric mu^2 grid. For "
+            "the perturbative-exact method the three ingredients that make the expansion converge are proved: r_vec(is_exact) "
+            "returns the Taylor coefficients of a*gamma(a)/beta(a) to every order it fills (series identity for symbolic beta_j), "
+            "u_vec satisfies the U-matrix recursion [U_k,R_0]+kU_k = R_k+sum R_(k-j)U_j for every k with general 2x2 R_k, and "
+            "eko_perturbative multiplies U(a_high) E0 U(a_low)^-1 per step with later steps on the left.",
     "note": "The convergence RATE with the number of iterations is a runtime quantity and is NOT decided (a one-step exponential "
             "midpoint rule with this generator is second order; that is mathematics about the formula proved here).",
     "technique": "partial evaluation with an uninterpreted matrix exponential + polynomial identity testing of the step generator",
@@ -78,6 +82,104 @@ def run(chk):
                                where=fi.where, instance=inst, data={"witness": info}, how="PE + PIT F_p")
     finally:
         pe.overrides.pop(f"{AD}.exp_matrix_2D", None)
+
+    # ---- perturbative-exact: ingredients whose correctness makes the expansion converge --------------------
+    # (a) r_vec(is_exact=True): sum_k r_k a^k must be the Taylor series of gamma(a)/beta(a)*a to EVERY computed order
+    from ..series import valuation_at_least
+
+    a = dag.sym("a")
+    frv = src.func(f"{kern.SG}.r_vec")
+    for n in range(2, 5):
+        for mo in ((n + 1, n + 3, n + 6) if chk.tier == "quick" else (n, n + 1, n + 2, n + 3, n + 6, 10)):
+            inst = f"order={n},max_order={mo}"
+            n_inst += 1
+            G = kern.sg_gamma(n)
+            bsym = [dag.sym(f"beta{j}") for j in range(n)]
+            r = pe.call(frv.qname, [G, bsym, (mo, 0), (n, 0), True])
+            chk.need(isinstance(r, Arr) and r.shape == (mo + 1, 2, 2), f"r_vec shape changed ({inst})")
+            # how many coefficients does u_vec consume?  u has max_order entries u_0..u_(mo-1) built from r_0..r_(mo-1)
+            top = mo - 1
+            res = []
+            den = dag.addn([dag.mul(bsym[j], dag.power(a, j)) for j in range(n)])
+            for rr in range(2):
+                for cc in range(2):
+                    ser = dag.addn([dag.mul(r[k, rr, cc], dag.power(a, k)) for k in range(0, top + 1)])
+                    num = dag.addn([dag.mul(G[j, rr, cc], dag.power(a, j)) for j in range(n)])
+                    res.append(dag.sub(dag.mul(ser, den), num))
+            ok, info = valuation_at_least(res, {"a": 1}, top + 1, chk.seed, 2)
+            chk.decide(ok, "perturbative-r-coefficients-are-taylor-series", frv.qname,
+                       f"exact R_k, k<= {top}: (sum_k R_k a^k) * sum_j beta_j a^j - sum_j gamma_j a^j has a term a^{info.get('lowest_power')} "
+                       f"(must vanish through a^{top}); with a wrong R_k the perturbative-exact solution stops converging as the "
+                       f"expansion order grows ({inst})", where=frv.where, instance=inst, data={"witness": info},
+                       how="series over F_p")
+    # (b) u_vec solves its recursion  [U_k, R_0] + k U_k = R_k + sum_{j=1}^{k-1} R_{k-j} U_j  for every k
+    fuv = src.func(f"{kern.SG}.u_vec")
+    for mo in (3, 5) if chk.tier == "quick" else (2, 3, 4, 5, 7):
+        n_inst += 1
+        R = Arr.from_nested([[[dag.sym(f"R{k}_{i}{j}") for j in range(2)] for i in range(2)] for k in range(mo + 1)])
+        U = pe.call(fuv.qname, [R, (mo, 0)])
+        chk.need(isinstance(U, Arr) and U.shape == (mo, 2, 2), "u_vec shape changed")
+        res = kern.mat_sub(U[0], kern.eye(2)).flat()
+        for kk in range(1, mo):
+            lhs = kern.mat_sub(kern.mat_mul(U[kk], R[0]), kern.mat_mul(R[0], U[kk]))
+            lhs = Arr([dag.add(x, dag.mul(kk, y)) for x, y in zip(lhs.flat(), U[kk].flat())], (2, 2))
+            rhs = R[kk]
+            for jj in range(1, kk):
+                rhs = Arr([dag.add(x, y) for x, y in zip(rhs.flat(), kern.mat_mul(R[kk - jj], U[jj]).flat())], (2, 2))
+            res.extend(kern.mat_sub(lhs, rhs).flat())
+        ok, info = dag.is_zero_fp(res, chk.seed, 2)
+        chk.decide(ok, "perturbative-u-recursion", fuv.qname,
+                   f"U_k does not satisfy [U_k,R_0] + k U_k = R_k + sum_j R_(k-j) U_j (k = {max(0, info.get('index', 4) - 4) // 4 + 1}) "
+                   f"(max_order={mo})", where=fuv.where, instance=f"max_order={mo}", data={"witness": info}, how="PE + PIT F_p")
+    # (c) eko_perturbative: each step is U(a_high) E0(a_high,a_low) U(a_low)^-1, later steps on the left
+    fep = src.func(f"{kern.SG}.eko_perturbative")
+    los = []
+
+    def lo_model(pe_, args, kwargs):
+        los.append(args)
+        i = len(los)
+        return Arr.from_nested([[dag.sym(f"E0_{i}_{r}{c}") for c in range(2)] for r in range(2)])
+
+    def uvec_model(pe_, args, kwargs):
+        mo = args[1][0]
+        return Arr.from_nested([[[dag.sym(f"U{k}_{r}{c}") if k else (1 if r == c else 0) for c in range(2)] for r in range(2)]
+                                for k in range(mo)])
+
+    pe.overrides[f"{kern.SG}.lo_exact"] = lo_model
+    pe.overrides[f"{kern.SG}.u_vec"] = uvec_model
+    try:
+        for its in (1, 2):
+            del los[:]
+            n_inst += 1
+            G = kern.sg_gamma(3)
+            K = pe.call(sd.qname, [(3, 0), M["PERTURBATIVE_EXACT"], G, a1, a0, nf, its, (4, 0)])
+            Uk = uvec_model(pe, [None, (4, 0)], {})
+            ratio = dag.div(a1, a0)
+            steps = [a0] + [dag.mul(a0, dag.power(ratio, Fraction(i, its))) for i in range(1, its)] + [a1]
+            want = kern.eye(2)
+            okargs = len(los) == its
+            for i in range(its):
+                al, ah = steps[i], steps[i + 1]
+                E0 = Arr.from_nested([[dag.sym(f"E0_{i + 1}_{r}{c}") for c in range(2)] for r in range(2)])
+
+                def sumu(x):
+                    acc = kern.eye(2)
+                    for k in range(1, 4):
+                        acc = Arr([dag.add(p, dag.mul(dag.power(x, k), q)) for p, q in zip(acc.flat(), Uk[k].flat())], (2, 2))
+                    return acc
+
+                step = kern.mat_mul(kern.mat_mul(sumu(ah), E0), kern.mat_inv(pe, sumu(al)))
+                want = kern.mat_mul(step, want)
+                if okargs:
+                    zz, _ = dag.is_zero_fp([dag.sub(los[i][1], ah), dag.sub(los[i][2], al)], chk.seed, 2)
+                    okargs = okargs and zz and los[i][0] is G
+            ok, info = dag.is_zero_fp(kern.mat_sub(K, want).flat(), chk.seed, 2)
+            chk.decide(ok and okargs, "perturbative-step-shape", fep.qname,
+                       f"perturbative kernel is not prod_steps U(a_high) E0(a_high,a_low) U(a_low)^-1 with later steps on the left "
+                       f"(iterations={its})", where=fep.where, instance=f"iterations={its}", data={"witness": info}, how="PE + PIT F_p")
+    finally:
+        pe.overrides.pop(f"{kern.SG}.lo_exact", None)
+        pe.overrides.pop(f"{kern.SG}.u_vec", None)
 
     # ---- QED singlet / valence --------------------------------------------------------------------
     for qn, dim in ((f"{kern.QSG}.dispatcher", 4), (f"{kern.QVL}.dispatcher", 2)):
